@@ -33,10 +33,12 @@ class Block(Node):
         if not self.parsed:
             scope.push()
             self.name, inner = self.tokens
+            if not self.name.parsed:
+                # not resolved at grammar time (interpolated variable defined
+                # later): root it now, while the enclosing block is current
+                self.name.parse(scope)
             scope.current = self.name
             scope.real.append(self.name)
-            if not self.name.parsed:
-                self.name.parse(scope)
             if not inner:
                 inner = []
             inner = list(utility.flatten([p.parse(scope) for p in inner if p]))
